@@ -56,6 +56,7 @@ type Conn struct {
 	Ops        int
 	ReadOps    []int
 	Remote     string
+	DeadlineFired int
 	// ReadAfterClose counts reads attempted after Close.
 	ReadAfterClose int
 
@@ -86,6 +87,11 @@ func (c *Conn) Read(b []byte) (int, error) {
 	if avail == 0 {
 		if c.EOFAtEnd {
 			return 0, io.EOF
+		}
+		if t, ok := c.LastDeadline(); ok && !t.IsZero() {
+			// a read deadline is armed and the peer stays silent: virtual time passes, it fires
+			c.DeadlineFired++
+			return 0, ErrDeadline
 		}
 		if Symbolic() {
 			Block("read on " + c.Name + " with no more scripted data")
